@@ -20,10 +20,8 @@ def variant_files(v: int) -> dict:
     }
     return fs
 
-def _project_type(t, base):
+def _project_type(t, rel):
     import pydsdl
-    def rel(p):
-        return os.path.relpath(str(p), base)
     def sec(c):
         delim = isinstance(c, pydsdl.DelimitedType)
         inner = c.inner_type
@@ -44,33 +42,42 @@ def _project_type(t, base):
 
 def _do_call(call, base):
     import pydsdl
-    v, loc, api = call["var"], call["loc"], call["api"]
-    root = os.path.join(base, "same" if loc == "same" else "copy%d" % v)
-    files = variant_files(v)
-    if loc == "same" or not os.path.isdir(root):
-        shutil.rmtree(root, ignore_errors=True)           # rewritten in place: same paths, new content
-        for relp, text in files.items():
-            p = os.path.join(root, relp)
-            os.makedirs(os.path.dirname(p), exist_ok=True)
-            with open(p, "w") as f:
-                f.write(text)
+    v, d, loc, api = call["var"], call["dep"], call["loc"], call["api"]
+    root = os.path.join(base, "same" if loc == "same" else "copy")
+    # target namespace of variant v, lookup namespace of variant d; "same": one pair of directories rewritten in place;
+    # "copy": a directory per variant of each namespace (an unmodified target file can meet another lookup directory)
+    nsdir = os.path.join(root, "ns") if loc == "same" else os.path.join(root, "t%d" % v, "ns")
+    depdir = os.path.join(root, "dep") if loc == "same" else os.path.join(root, "l%d" % d, "dep")
+    for target, var, prefix in ((nsdir, v, "ns/"), (depdir, d, "dep/")):
+        if loc == "same" or not os.path.isdir(target):
+            shutil.rmtree(target, ignore_errors=True)           # rewritten in place: same paths, new content
+            for relp, text in variant_files(var).items():
+                if relp.startswith(prefix):
+                    p = os.path.join(target, relp[len(prefix):])
+                    os.makedirs(os.path.dirname(p), exist_ok=True)
+                    with open(p, "w") as f:
+                        f.write(text)
     prints = []
     def ph(path, line, text):
-        prints.append((os.path.relpath(str(path), root), line, text))
+        prints.append((_rel(path), line, text))
+    def _rel(p):      # paths as <namespace>/<rest>, whatever directory the namespace lives in
+        p = str(p)
+        for dpath, name in ((nsdir, "ns"), (depdir, "dep")):
+            if p == dpath or p.startswith(dpath + os.sep):
+                return name + p[len(dpath):]
+        return os.path.relpath(p, root)
     try:
         if api == "namespace":
-            direct, trans = pydsdl.read_namespace(os.path.join(root, "ns"), [os.path.join(root, "dep")], print_output_handler=ph), None
+            direct, trans = pydsdl.read_namespace(nsdir, [depdir], print_output_handler=ph), None
         elif api == "files":
-            direct, trans = pydsdl.read_files([os.path.join(root, "ns", "User.1.0.dsdl")], [os.path.join(root, "ns")], [os.path.join(root, "dep")],
-                                              print_output_handler=ph)
+            direct, trans = pydsdl.read_files([os.path.join(nsdir, "User.1.0.dsdl")], [nsdir], [depdir], print_output_handler=ph)
         else:
-            direct, trans = pydsdl.read_files([os.path.join(root, "dep", "Thing.1.0.dsdl"), os.path.join(root, "ns", "User.1.0.dsdl"),
-                                               os.path.join(root, "ns", "Svc.1.0.dsdl")], [os.path.join(root, "ns"), os.path.join(root, "dep")], [],
-                                              print_output_handler=ph)
-        return {"ok": True, "direct": [_project_type(t, root) for t in direct],
-                "transitive": None if trans is None else [_project_type(t, root) for t in trans], "prints": prints}
+            direct, trans = pydsdl.read_files([os.path.join(depdir, "Thing.1.0.dsdl"), os.path.join(nsdir, "User.1.0.dsdl"),
+                                               os.path.join(nsdir, "Svc.1.0.dsdl")], [nsdir, depdir], [], print_output_handler=ph)
+        return {"ok": True, "direct": [_project_type(t, _rel) for t in direct],
+                "transitive": None if trans is None else [_project_type(t, _rel) for t in trans], "prints": prints}
     except pydsdl.FrontendError as ex:
-        return {"ok": False, "cls": type(ex).__name__, "path": None if ex.path is None else os.path.relpath(str(ex.path), root),
+        return {"ok": False, "cls": type(ex).__name__, "path": None if ex.path is None else _rel(ex.path),
                 "line": ex.line, "prints": prints}
     except Exception as ex:      # noqa - the class is the observation
         return {"ok": False, "cls": "RAW:" + type(ex).__name__, "text": str(ex)[:200], "prints": prints}
